@@ -639,6 +639,118 @@ def _run_elementwise(ctx, b, rep, rng, n_vectors):
                 rep.fail("C13.elementwise.inverse-pair", f"{lg}-{ex}", w, detail)
 
 
+
+# ---- elementwise transforms on non-float64 inputs (integer, small-integer, boolean, float32 columns)
+DTYPE_CODE = """
+import math, numpy as np, pandas as pd
+from formulaic import model_matrix
+from formulaic.transforms import TRANSFORMS
+vals, dtype, via = {vals!r}, {dtype!r}, {via!r}
+x = np.array(vals, dtype=dtype)
+if via == "formula":
+    got = np.asarray(model_matrix("{name}(x) - 1", pd.DataFrame({{"x": x}}), context={{}}).iloc[:, 0])
+else:
+    got = np.asarray(TRANSFORMS[{name!r}](pd.Series(x) if via == "series" else x))
+exp = [{meaning} for v in (float(t) for t in x)]
+if np.issubdtype(got.dtype, np.floating):
+    fi = np.finfo(got.dtype)       # the result is judged at the precision of the floating type numpy returns
+    assert all(abs(float(a) - b) <= 8 * float(fi.eps) * abs(b) + float(fi.tiny) for a, b in zip(got, exp)), (got.tolist(), exp)
+else:                              # a non-floating result can only be right if it is exact
+    assert all(float(a) == b for a, b in zip(got, exp)), (str(got.dtype), got.tolist(), exp)
+"""
+
+DTYPE_PAIR_CODE = """
+import numpy as np
+from formulaic.transforms import TRANSFORMS
+lg, ex = TRANSFORMS[{lg!r}], TRANSFORMS[{ex!r}]
+eps = 2.220446049250313e-16
+k = np.array({k!r}, dtype={dtype!r})      # integer exponents
+m = np.array({m!r}, dtype={dtype!r})      # positive integer arguments of the logarithm
+a = np.asarray(lg(ex(k)), dtype=float)
+assert (np.abs(a - k) <= 16 * eps * (1 + np.abs(k))).all(), ("{lg}({ex}(k)) != k", a.tolist(), k.tolist())
+b = np.asarray(ex(lg(m)), dtype=float)
+assert (np.abs(b - m) <= 16 * eps * (1 + np.abs(np.log(m.astype(float)))) * 3.4 * m).all(), ("{ex}({lg}(m)) != m", b.tolist(), m.tolist())
+"""
+
+# per dtype: (exponent range for exp/exp2/exp10, largest logarithm argument); small types are promoted by numpy to
+# float16 / float32 results, so the exponents are kept where those can represent the value
+DTYPES = {
+    "int64": ({"exp": (-40, 50), "exp2": (-60, 70), "exp10": (-25, 25)}, 10**15),
+    "int32": ({"exp": (-40, 50), "exp2": (-60, 70), "exp10": (-25, 25)}, 2 * 10**9),
+    "int16": ({"exp": (-40, 50), "exp2": (-60, 70), "exp10": (-25, 25)}, 30000),
+    "int8": ({"exp": (-4, 4), "exp2": (-4, 4), "exp10": (-4, 4)}, 127),
+    "uint8": ({"exp": (0, 4), "exp2": (0, 4), "exp10": (0, 4)}, 255),
+    "bool": ({"exp": (0, 1), "exp2": (0, 1), "exp10": (0, 1)}, 1),
+    "float32": ({"exp": (-40, 50), "exp2": (-60, 70), "exp10": (-25, 25)}, 10**6),
+}
+
+
+def _run_elementwise_dtypes(ctx, b, rep, rng, n_rounds):
+    import pandas as pd
+    from formulaic import model_matrix
+    from formulaic.transforms import TRANSFORMS
+
+    for i in range(n_rounds):
+        for dtype, (ranges, logmax) in DTYPES.items():
+            group = "int" if "int" in dtype else dtype
+            for name, (meaning_src, meaning) in MEANING.items():
+                n = rng.randint(2, 12)
+                if name.startswith("log"):
+                    vals = [rng.randint(1, logmax) for _ in range(n)]
+                    vals[:2] = [1, logmax]
+                else:
+                    lo, hi = ranges[name]
+                    vals = [rng.randint(lo, hi) for _ in range(n)]
+                    vals[:2] = [lo, hi]          # the extremes: negative and large exponents
+                x = np.array(vals, dtype=dtype)
+                exp_ = [meaning(float(t)) for t in x]
+                for via in (("array", "series", "formula") if i == 0 else (rng.choice(["array", "series", "formula"]),)):
+                    b.case(("dtype", name, dtype, via, tuple(vals)), True,
+                           {"fn": name, "dtype": dtype, "via": via, "x[:4]": vals[:4]})
+                    w = {"fn": name, "dtype": dtype, "via": via, "x": vals,
+                         "code": code(DTYPE_CODE.format(vals=vals, dtype=dtype, via=via, name=name, meaning=meaning_src))}
+                    try:
+                        with quiet_numpy():
+                            if via == "formula":
+                                got = np.asarray(model_matrix(f"{name}(x) - 1", pd.DataFrame({"x": x}), context={}).iloc[:, 0])
+                            else:
+                                got = np.asarray(TRANSFORMS[name](pd.Series(x) if via == "series" else x))
+                        if np.issubdtype(got.dtype, np.floating):
+                            fi = np.finfo(got.dtype)
+                            ok = got.shape == (n,) and all(abs(float(a) - e) <= 8 * float(fi.eps) * abs(e) + float(fi.tiny)
+                                                           for a, e in zip(got, exp_))
+                        else:
+                            ok = got.shape == (n,) and all(float(a) == e for a, e in zip(got, exp_))
+                        detail = "" if ok else (f"{name}({vals[:4]} as {dtype}) = {got.tolist()[:4]} ({got.dtype}), the name "
+                                                f"denotes {exp_[:4]}")
+                        cls = f"{name}:{group}-input" + ("" if ok or np.issubdtype(got.dtype, np.floating) else ":non-float-result")
+                    except Exception as e:  # noqa: BLE001 - outcome of the code under test
+                        ok, detail, cls = False, f"{name}({vals[:4]} as {dtype}) via {via}: {type(e).__name__}: {e}"[:500], \
+                            f"{name}:{group}-input:raises-{type(e).__name__}"
+                    if not ok:
+                        rep.fail("C13.elementwise.denotes-name", cls, w, detail)
+            if dtype in ("int64", "int32"):
+                for lg, ex in PAIRS:
+                    lo, hi = DTYPES[dtype][0][ex]
+                    k = [rng.randint(max(lo, -20), min(hi, 20)) for _ in range(6)] + [max(lo, -20), min(hi, 20)]
+                    m = [rng.randint(1, 10**6) for _ in range(6)] + [1, 10**6]
+                    b.case(("dtype-pair", lg, dtype, tuple(k), tuple(m)), True)
+                    w = {"pair": [lg, ex], "dtype": dtype, "k": k, "m": m,
+                         "code": code(DTYPE_PAIR_CODE.format(lg=lg, ex=ex, k=k, m=m, dtype=dtype))}
+                    try:
+                        with quiet_numpy():
+                            ka, ma = np.array(k, dtype=dtype), np.array(m, dtype=dtype)
+                            a = np.asarray(TRANSFORMS[lg](TRANSFORMS[ex](ka)), dtype=float)
+                            c_ = np.asarray(TRANSFORMS[ex](TRANSFORMS[lg](ma)), dtype=float)
+                        ok = bool((np.abs(a - ka) <= 16 * EPS * (1 + np.abs(ka))).all()) and bool(
+                            (np.abs(c_ - ma) <= 16 * EPS * (1 + np.abs(np.log(ma.astype(float)))) * 3.4 * ma).all())
+                        detail = "" if ok else f"{lg}({ex}({k[:4]})) = {a.tolist()[:4]}; {ex}({lg}({m[:4]})) = {c_.tolist()[:4]}"
+                        cls = f"{lg}-{ex}:int-input"
+                    except Exception as e:  # noqa: BLE001
+                        ok, detail, cls = False, f"{type(e).__name__}: {e}"[:500], f"{lg}-{ex}:int-input:raises-{type(e).__name__}"
+                    if not ok:
+                        rep.fail("C13.elementwise.inverse-pair", cls, w, detail)
+
 # ------------------------------------------------------------------------------------------
 def run_bounded(ctx):
     rng = random.Random(ctx.seed * 1000003 + 13)
@@ -650,6 +762,8 @@ def run_bounded(ctx):
         A_FLOAT,
         "A-nondegenerate(C13): unit variance is only demanded of non-constant vectors with n > ddof; poly only for "
         "degree < number of distinct values and spread/magnitude > 1e-3 (otherwise x - mean has too few digits left)",
+        "A-small-dtypes(C13): for int8/uint8/bool/int16/float32 inputs numpy's own log/exp return float16/float32; results "
+        "are judged at the precision of the floating type returned and exponents are kept inside its range",
         "A-scale-uncentred(C13): for scale(center=False, scale=True) the statement does not fix the divisor "
         "(the docs say 'standard deviation', R says root-mean-square); only proportionality and replay with the "
         "same divisor are checked",
@@ -722,4 +836,17 @@ def run_bounded(ctx):
     ) as b:
         rep = Reporter(ctx, b)
         _run_elementwise(ctx, b, rep, rng, 400 if thorough else 25)
+        rep.close()
+
+    with ctx.bounded(
+        "elementwise-dtypes",
+        rule="TRANSFORMS[name] on int64/int32/int16/int8/uint8/bool/float32 inputs (arrays, Series, DataFrame columns "
+             "inside a formula) incl. the most negative and the largest exponents of the range, vs the meaning of the name "
+             "at the precision of the floating type returned (a non-floating result must be exact); inverse pairs on "
+             "integer inputs; distinct = (name, dtype, route, values)",
+        bound="%d rounds x 7 dtypes x 6 functions; exponents e.g. exp10: -25..25 (int8: -4..4), log arguments up to 1e15"
+              % (40 if thorough else 4),
+    ) as b:
+        rep = Reporter(ctx, b)
+        _run_elementwise_dtypes(ctx, b, rep, rng, 40 if thorough else 4)
         rep.close()
